@@ -284,6 +284,8 @@ class NP:
     kinds = [x[0] for x in pattern]
     r = st.shape.rank
     elem_sort_real = st.kind in ('f', 'c')
+    if len(kinds) >= 2 and kinds[0] == 'all' and kinds[1] == 'new' and all(k == 'all' for k in kinds[2:]):
+      return TH.addaxis1(st.term)
     if kinds[0] == 'int' and all(k == 'all' for k in kinds[1:]):
       i = pattern[0][1]
       d0 = st.shape.dims[0]
